@@ -628,7 +628,7 @@ func runC14(c *Ctx) {
 	sh.limit = 60
 	c14MemProbes(c)
 	plans := c14Plans()
-	reps := c.pick(16, 300)
+	reps := c.pick(20, 300)
 	n := 0
 	for rep := 0; rep < reps; rep++ {
 		for _, p := range plans {
